@@ -100,3 +100,75 @@ CHECKS["C01"] = {
         "inputs of 0..65535 octets; decoder-level checks call the exported entry points directly",
     ],
 }
+
+CHECKS["C15"] = {
+    "title": "Rate limiting is a per-client-subnet token bucket isolating clients",
+    "level": "exploration",
+    "level_text": "Generated limiter configurations and timed arrival histories in virtual time are checked against a reference token bucket per reference-masked subnet, against the window bound of the statement, and against the metamorphic isolation relation; the listener-level behaviour (REFUSED / 503 / not forwarded / charged to the client's subnet) is checked against the real binary. Exploration with shrinking.",
+    "level_note": "Float tolerance band 1e-6 tokens (either answer accepted inside it); masks generated as omitted or in range only.",
+    "technique": "property-based testing (rapid): reference model + metamorphic isolation relation over generated histories",
+    "parts": [
+        {"engine": "P", "pkg": "internal/limiter", "tests": [
+            {"run": "TestVfC15Limiter", "quick": 30000, "thorough": 2000000, "shards_quick": 6, "shards_thorough": 16, "timeout_thorough": 3000},
+        ]},
+    ],
+    "assumptions": [
+        "mask fields are omitted (0) or within 1..32 / 1..128; limit >= 1 as the configuration's integer type implies",
+        "time is the parameter of AllowN (virtual); decisions within 1e-6 tokens of the threshold may go either way",
+    ],
+}
+
+CHECKS["C07"] = {
+    "title": "Cached answers go only to the same question and client group, unchanged",
+    "level": "exploration",
+    "level_text": "Black box: generated query histories that differ from an earlier query in exactly one of name/case/class/type/client group against the real binary with serial-numbered upstream answers (a hit must be legitimate and unchanged; an identical repeat must hit). White box: cache keys equal iff components equal under dirtied pool buffers, client-group lookup against a linear scan for generated range files, and a concurrent store/lookup/eviction hammer on the memory cache under the race detector. Exploration; schedules are sampled.",
+    "level_note": "Group labels are printable strings; concurrency is sampled by the OS scheduler under -race.",
+    "technique": "property-based testing (rapid): differential vs reference lookup, metamorphic single-component changes, history invariant over serial-numbered answers, randomized concurrent hammer under -race",
+    "parts": [
+        {"engine": "P", "pkg": "internal/netlist", "tests": [
+            {"run": "TestVfC07Netlist", "quick": 20000, "thorough": 1000000, "shards_quick": 4, "shards_thorough": 16},
+        ]},
+        {"engine": "P", "pkg": "app/router", "tests": [
+            {"run": "TestVfC07IpMarker", "quick": 6000, "thorough": 300000, "shards_quick": 2, "shards_thorough": 8},
+            {"run": "TestVfC07CacheKey", "quick": 20000, "thorough": 1000000, "shards_quick": 2, "shards_thorough": 8},
+        ]},
+        {"engine": "P", "pkg": "internal/cache", "race": True, "tests": [
+            {"run": "TestVfC07MemCacheHammer", "quick": 120, "thorough": 6000, "shards_quick": 4, "shards_thorough": 12, "timeout_quick": 300},
+        ]},
+    ],
+    "assumptions": [
+        "client-group labels are printable strings without '#'; ranges in marker files do not overlap (overlap must be rejected at load)",
+    ],
+}
+
+CHECKS["C08"] = {
+    "title": "Cached answers age correctly and expire on time",
+    "level": "exploration",
+    "level_text": "White box without sleeping: generated responses x configured maxima are stored and the (stored, expire) pair read back must respect the lifetime policy table of the statement (TC/nil never stored, errors never displace a live positive entry); entries back-dated by 0..2^32-2 s must be served with TTLs <= max(1, T - elapsed) and >= 1, OPT untouched. Black box: timed histories over hundreds of independent names against the real binary with harness clocks on both sides. Exploration.",
+    "level_note": "The redis second-level backend cannot be exercised offline (no server); lifetime floor of 1 s is accepted as cache-clock granularity.",
+    "technique": "property-based testing (rapid): policy-table oracle on generated responses, back-dated entries instead of a clock hook, timed end-to-end histories",
+    "parts": [
+        {"engine": "P", "pkg": "app/router", "tests": [
+            {"run": "TestVfC08StorePolicy", "quick": 15000, "thorough": 500000, "shards_quick": 4, "shards_thorough": 16},
+            {"run": "TestVfC08Ageing", "quick": 15000, "thorough": 500000, "shards_quick": 4, "shards_thorough": 16},
+        ]},
+    ],
+    "assumptions": [
+        "redis backend not explored (no server in the sandbox)",
+        "a lifetime of 1 s for TTL-0 records is within the statement's cache-clock allowance",
+    ],
+}
+
+CHECKS["C12"] = {
+    "title": "EDNS0 ends at the proxy; ECS reveals only a truncated client prefix",
+    "level": "exploration",
+    "level_text": "The ECS option encoder is compared with a reference encoder on generated addresses of every form; the end-to-end behaviour (OPT iff the query had one, no option relayed either way, exactly one OPT upstream with the reference ECS bytes only when enabled and the client address is known) is checked on generated queries/replies against the real binary. Exploration.",
+    "level_note": "Upstream wire bytes are observed by the harness's fake upstream; at most one OPT per message.",
+    "technique": "property-based testing (rapid): reference encoder differential + end-to-end observation of both sides",
+    "parts": [
+        {"engine": "P", "pkg": "app/router", "tests": [
+            {"run": "TestVfC12EcsEncoder", "quick": 50000, "thorough": 2000000, "shards_quick": 2, "shards_thorough": 8},
+        ]},
+    ],
+    "assumptions": ["at most one OPT per message (RFC 6891)"],
+}
